@@ -134,6 +134,19 @@ func bindPlaceholders(g *Gen, docs map[string]*Node) {
 			}
 		}
 	}
+	// sibling property names where one is a string prefix of the other (addr / addrKind)
+	if set["N_3"] && set["N_4"] && g.r.Intn(2) == 0 {
+		if _, b3 := g.Names.ToConcrete["N_3"]; !b3 {
+			if _, b4 := g.Names.ToConcrete["N_4"]; !b4 {
+				base := g.concreteName(g.pickClass())
+				if !g.usedConcrete[base+"Kind"] && !reservedWords[base+"Kind"] {
+					g.usedConcrete[base+"Kind"] = true
+					g.Names.Bind("N_4", base)
+					g.Names.Bind("N_3", base+"Kind")
+				}
+			}
+		}
+	}
 	// C_i is the case variant of N_i: bind after the N_ names
 	sort.SliceStable(keys, func(i, j int) bool { return !strings.HasPrefix(keys[i], "C_") && strings.HasPrefix(keys[j], "C_") })
 	for _, k := range keys {
@@ -324,7 +337,7 @@ func flattenScenarios(tier string, seed int64, scratch string) ([]*Case, []strin
 			b.Files[id] = scenarioFiles[id]
 		}
 		b.Feat = Features{NAux: len(fs.Docs) - 1, Collision: fs.C != "none",
-			Anon:      fs.T == "anonprop" || fs.T == "anonitems" || fs.T == "anonallof",
+			Anon:      fs.T == "anonprop" || fs.T == "anonitems" || fs.T == "anonallof" || fs.T == "anonsibling",
 			SharedPtr: fs.T == "sharedparam" || fs.T == "sharedresp",
 			// a pointer nested in a pointer target belongs to the wider class W+ (C09 only)
 			WPlus: fs.S == "ptrarray"}
